@@ -95,6 +95,30 @@ def drive(ctx):
         ctx.emit("rel", {"m": "average"}, [da, dc])
         ctx.emit("rel", {"m": "is_same_day"}, [da, db])
         ctx.emit("rel", {"m": "is_anniversary"}, [da, db])
+    # an Interval used as a duration: arithmetic, negation, whole-day totals
+    OPS = ("as_duration", "neg", "abs", "totals", "totals")        # the arithmetic operators are driven by C10
+    for k in range(240 if q else 6000):
+        s1 = rnd.randrange(LO + 86400 * 20000, HI - 86400 * 20000)
+        s2 = s1 + rnd.choice((1, -1)) * rnd.choice((rnd.randrange(3), rnd.randrange(86400 * 3), rnd.randrange(86400 * 900),
+                                                    86400 * rnd.randrange(15000), 7 * 86400 * rnd.randrange(40)))
+        w1 = i3_to_wall(sec_to_i3(s1, rnd.choice((0, 0, 1, 999999, rnd.randrange(1000000)))))
+        w2 = i3_to_wall(sec_to_i3(s2, rnd.choice((0, 0, 1, 999999, rnd.randrange(1000000)))))
+        m = k % 5
+        if m == 0:
+            pr = [{"k": "date", "w": w1[:3], "cls": "Date"}, {"k": "date", "w": w2[:3], "cls": "Date"}]
+        elif m == 1:
+            pr = [mk_dt(NAIVE, w1, 0), mk_dt(NAIVE, w2, 0)]
+        elif m == 2:
+            pr = [mk_dt(UTCZ, w1, 0), mk_dt(UTCZ, w2, 0)]
+        elif m == 3:
+            fo = {"n": "", "fo": rnd.choice(FIXED_OFFSETS)}
+            pr = [mk_dt(fo, w1, 0), mk_dt(fo, w2, 0)]
+        else:
+            pr = [mk_dt({"n": rnd.choice(pool), "fo": 0}, w1, 0), mk_dt({"n": rnd.choice(pool), "fo": 0}, w2, 1)]
+        o = OPS[(k // 5) % len(OPS)]
+        ctx.emit("iv_arith", {"o": o, "abs": bool(k % 3 == 0), "n": rnd.choice((2, 3, -2, 7, -1, 1000)) if "div" not in o else
+                              rnd.choice((2, 3, -2, 7, 10)), "d": rnd.randrange(-3, 4), "s": rnd.randrange(86400),
+                              "us": rnd.choice((0, 1, 999999, 500000))}, pr)
     # Date pairs, naive pairs, random pairs over the whole range
     for k in range(300 if q else 4000):
         s1 = rnd.randrange(LO, HI)
